@@ -156,6 +156,9 @@ func (p *ProvCase) Body(b *harness.BodyCtx) {
 				case "stage":
 					res = rs.CurrentStage()
 				}
+				if b.Sim.Draining() {
+					return // released by the teardown of a stuck run: not part of the history
+				}
 				call.Return, call.Returned = b.Sim.Seq(), true
 				if err != nil {
 					call.Err = err.Error()
@@ -175,6 +178,9 @@ func (p *ProvCase) Body(b *harness.BodyCtx) {
 	p.mu.Unlock()
 	b.W.Log(world.Event{Kind: "call", Data: map[string]any{"i": call.Idx, "op": "close", "client": -1}})
 	err = rs.Close()
+	if b.Sim.Draining() {
+		return
+	}
 	call.Return, call.Returned = b.Sim.Seq(), true
 	if err != nil {
 		call.Err = err.Error()
